@@ -173,6 +173,23 @@ func c09Cases(level int) []SCase {
 			}
 		}
 	}
+	// the property is declared by one allOf member and given its default by a later one (inline and by reference): the merged type has both
+	for _, pr := range []struct {
+		name string
+		typ  J
+		def  any
+	}{{"integer", J{"type": "integer"}, 9000}, {"string", J{"type": "string"}, "dflt"}, {"array", J{"type": "array", "items": J{"type": "string"}}, A{"x"}}} {
+		for _, ref := range []bool{false, true} {
+			declaring := J{"type": "object", "properties": J{"p": space.Clone(pr.typ), "k": J{"type": "string"}}}
+			later := J{"type": "object", "properties": J{"p": space.With(pr.typ, "default", pr.def)}}
+			root := J{"type": "object", "properties": J{"c": J{"allOf": A{declaring, later}}}, "required": A{"c"}}
+			if ref {
+				root = J{"type": "object", "properties": J{"c": J{"allOf": A{J{"$ref": "#/$defs/Base"}, later}}}, "required": A{"c"}, "$defs": J{"Base": declaring}}
+			}
+			cases = append(cases, SCase{ID: fmt.Sprintf("C09/allof-later-default/%s/ref=%v", pr.name, ref), Cfg: baseCfg(), Schema: root,
+				Axes: map[string]string{"pos": "allof-later-default", "leaf": pr.name, "kind": pr.name}})
+		}
+	}
 	// two schemas that map to the same Go type name (inline S.a.b vs definition "SAB", two definitions differing only in
 	// case) and are identical except for their defaults: each must keep its own default
 	for i, pair := range [][2]any{{3, 10}, {"x", "y"}, {true, false}, {A{1}, A{2, 3}}} {
